@@ -485,6 +485,7 @@ func (n *Node) gossip(peer *peers.Peer) error {
 		n.logger.WithError(err).Warn("gossip pull")
 		return err
 	}
+	simYield(n, "gossip.between")
 
 	// push
 	err = n.push(peer, otherKnownEvents)
@@ -652,6 +653,7 @@ func (n *Node) fastForward() error {
 		n.logger.WithError(err).Error("Fast Forwarding Hashgraph")
 		return err
 	}
+	simYield(n, "ff.between")
 
 	err = n.core.processAcceptedInternalTransactions(resp.Block.RoundReceived(), resp.Block.InternalTransactionReceipts())
 	if err != nil {
